@@ -54,6 +54,7 @@ fn foreign_init() -> Layout {
         zooms: [0, 3, 1],
         coords: [0; 6],
         zero_counters: 0,
+        overlap_prefixes: false,
     }
 }
 
@@ -125,6 +126,51 @@ fn check_history(h: &History, full_every_step: bool) -> CaseResult {
         .label(matches!(h.init, Init::Empty(_)), "init-empty"))
 }
 
+/// A long history on a big, regular archive: 20-33k adds, edits, save + reopen (sync and async); the directory of
+/// such an archive compresses into a single root with far more than 16384 entries.
+#[derive(Clone, Debug, serde::Serialize, serde::Deserialize)]
+pub struct LongCase {
+    pub n: u32,
+    pub internal: u8,
+    pub seed: u64,
+}
+
+fn check_long(c: &LongCase) -> CaseResult {
+    use crate::engine::{guarded, Fail};
+    use crate::libx::Arch;
+    let l = crate::model::logical::dense(c.n as usize, c.seed, c.internal);
+    let mut model = l.map();
+    let mut a = l.build(false).map_err(|e| Fail::new("C04/harness", e))?;
+    let ids: Vec<u64> = model.keys().copied().collect();
+    let mut r = crate::engine::Sm(c.seed);
+    for round in 0..2 {
+        // a few edits
+        for _ in 0..5 {
+            let id = ids[r.below(ids.len() as u64) as usize];
+            match r.below(3) {
+                0 => {
+                    a.remove(id);
+                    model.remove(&id);
+                }
+                1 => {
+                    let content = vec![7u8, r.below(250) as u8, 3];
+                    a.add(id, content.clone()).map_err(|e| Fail::new("C04/add_tile-err", format!("{e}")))?;
+                    model.insert(id, content);
+                }
+                _ => {
+                    let other = model.values().next().cloned().unwrap_or(vec![1]);
+                    a.add(id, other.clone()).map_err(|e| Fail::new("C04/add_tile-err", format!("{e}")))?;
+                    model.insert(id, other);
+                }
+            }
+        }
+        let bytes = guarded("to_writer", || a.write())?.map_err(|e| Fail::new("C04/write-err", format!("{e}")))?;
+        a = guarded("open", || if round == 0 { Arch::open_sync(bytes) } else { Arch::open_async(bytes) })?.map_err(|e| Fail::new("C04/open-err", format!("reopen failed: {e}")))?;
+        super::c01::compare_tiles(&mut a, &model, None, c.seed + round, "C04")?;
+    }
+    Ok(Meta::new(true).label(true, "long-history-big-archive").label(true, "edit-after-reopen").label(true, "has-reopen"))
+}
+
 fn adversarial_probe() -> Vec<History> {
     // the colliding content family of C01 note 3 in an edit history: adding B under another id changes
     // what id 1 returns (same root cause, signature .../hash-adversarial)
@@ -158,6 +204,8 @@ pub fn run(ctx: &Ctx) {
     }
     let (max_ops, max_ids) = ctx.tier.pick((60, 300), (300, 3000));
     run_proptest(ctx, "random-histories", PtCfg::new(ctx.lanes, ctx.tier.pick(1000, 8000)), || history::history(max_ops, max_ids, 200), |h| check_history(h, h.ops.len() <= 12));
+    let longs: Vec<LongCase> = (0..ctx.tier.pick(3u32, 9)).map(|i| LongCase { n: 20_000 + 4500 * i, internal: 2 + (i % 3) as u8, seed: ctx.seed + u64::from(i) }).collect();
+    run_list(ctx, "long-history-on-big-archive", &longs, check_long);
     run_list(ctx, "finding-class-probes", &adversarial_probe(), check_probe);
     for c in ["replace-bound-id", "edit-shared-content", "edit-after-reopen", "init-foreign", "init-written", "init-empty"] {
         ctx.rec.floor(c, 20);
@@ -177,6 +225,7 @@ pub fn replay(sub: &str, case: &Value) -> Option<CaseResult> {
             Some(check_history(&h, true))
         }
         "finding-class-probes" => Some(check_probe(&super::de(case)?)),
+        "long-history-on-big-archive" => Some(check_long(&super::de(case)?)),
         _ => None,
     }
 }
